@@ -10,6 +10,11 @@ from __future__ import annotations
 
 import itertools
 
+class SyntheticDecoderError(Exception):
+    """Raised by a table-driven decoder on a text marked RAISE (a decoder of a user registry that fails on some value)."""
+
+
+RAISE = "RAISE"
 TEXT = b"aBcD"
 F1, F2, F3 = b"xY", b"xYz", b"aB"
 
@@ -190,6 +195,10 @@ def random_config(r, max_text=40, max_hits=14, n_texts=6, self_repro=False):
         d = tables[0]
         for text in texts:
             d.setdefault(text, []).append(("loop", text + b"!" if len(text) < 30 else text[:5], "again", 0, len(text), ()))
+    if len(texts) > 1 and r.random() < 0.06:
+        # a decoder that fails on one of the deeper texts: the scan may propagate the failure, but it must not return a tree
+        # as if nothing had happened (and go on without that decoder)
+        r.choice(tables)[r.choice(texts[1:])] = RAISE
     return texts[0], tables
 
 
@@ -197,8 +206,15 @@ def random_config(r, max_text=40, max_hits=14, n_texts=6, self_repro=False):
 # adapters
 
 
+def _lookup(t, text):
+    got = t.get(bytes(text), [])
+    if got == RAISE:
+        raise SyntheticDecoderError(bytes(text)[:20])
+    return got
+
+
 def model_registry(tables):
-    return [(lambda text, t=t: t.get(bytes(text), [])) for t in tables]
+    return [(lambda text, t=t: _lookup(t, text)) for t in tables]
 
 
 def engine_registry(tables, appendix=None):
@@ -214,7 +230,7 @@ def engine_registry(tables, appendix=None):
     for t in tables:
         if id(t) not in made:
             def dec(data, t=t):
-                return [build(s) for s in t.get(bytes(data), [])]
+                return [build(s) for s in _lookup(t, data)]
             made[id(t)] = dec
         out.append(made[id(t)])  # the same table twice -> the very same callable twice
     return out
@@ -235,7 +251,7 @@ def encode_tables(tables):
             out.append({"same_as": first[id(t)]})  # the same decoder object listed again
         else:
             first[id(t)] = i
-            out.append({k.hex(): [enc(h) for h in v] for k, v in t.items()})
+            out.append({k.hex(): (RAISE if v == RAISE else [enc(h) for h in v]) for k, v in t.items()})
     return out
 
 
@@ -247,5 +263,5 @@ def decode_tables(j):
         if "same_as" in t:
             out.append(out[t["same_as"]])
         else:
-            out.append({bytes.fromhex(k): [dec(h) for h in v] for k, v in t.items()})
+            out.append({bytes.fromhex(k): (RAISE if v == RAISE else [dec(h) for h in v]) for k, v in t.items()})
     return out
